@@ -217,3 +217,14 @@ package certstore
 //@   modifies auto
 //@   maypanic
 
+
+// Subscribers: a subscription is a channel of capacity one that starts with the latest certificate (if any) and is
+// registered under the store's lock; Put (above) drains before it sends, so with capacity one the send cannot block.
+//@ func (*Store).Subscribe
+//@   property C09
+//@   modifies auto
+//@   maypanic
+//@   at chansend 1
+//@     before[a_new_subscriber_first_sees_the_latest_certificate_in_a_one_slot_channel] chancap(arg(0)) == 1 && arg(1) == cs.latestCertificate && cs.latestCertificate != nil
+//@   at return 0
+//@     before[the_registered_channel_is_the_one_returned] has(cs.subscribers, arg(0)) && chancap(arg(0)) == 1
